@@ -55,6 +55,7 @@ RULES = [
     ('R1b', 'Type<D> / Type<\'_, D> / Type<NodeCodec<D>> -> Type',
      re.compile(r'\b(Writer|Reader|Database|Node|Leaf|SplitPlaneNormal|FrozzenReader|ImmutableLeafs|ImmutableTrees|ImmutableSubsetLeafs|TmpNodes|QueryBuilder|ItemIter)<(?:\'\w+,\s*)?(?:D|ND|NodeCodec<D>)>'), r'\1'),
     ('R1c', 'D::f(..) -> Dist::f(..)', re.compile(r'\bD::(?=[a-zA-Z_])'), 'Dist::'),
+    ('R1i', 'ND::f(..) -> NDist::f(..) (second uninterpreted metric of prepare_changing_distance)', re.compile(r'\bND::(?=[a-zA-Z_])'), 'NDist::'),
     ('R1d', 'drop lifetime-only generics on stand-in types (Reader<\'t> etc.)',
      re.compile(r"\b(RoTxn|RwTxn|ItemIds|Descendants|Metadata)<'\w+>"), r'\1'),
     ('R1e', 'erase lifetimes (checked by rustc on the real code): &\'a T -> &T, fn f<\'a, ..> -> fn f<..>',
@@ -95,13 +96,52 @@ R6A = ('R6a', 'X.next(..).transpose() -> transpose_(X.next(..))  (Option<Result>
 
 def rule_r9(text):
     n = 0
-    for m in list(re.finditer(r'let\s+mut\s+(\w+)\s*=\s*[^;]*?prefix_iter_mut\w*\(\s*(\w+)\s*,', text, re.S)):
+    for m in list(re.finditer(r'let\s+mut\s+(\w+)\s*=\s*[^;]*?(?:prefix_iter_mut|rev_prefix_iter_mut|rev_range_mut|range_mut|iter_mut)\(\s*(\w+)\s*[,)]', text, re.S)):
         cur, txn = m.group(1), m.group(2)
         text, a = re.subn(r'\b%s\.next\(\)' % cur, '%s.next(%s)' % (cur, txn), text)
         text, b = re.subn(r'\b%s\.del_current\(\)' % cur, '%s.del_current(%s)' % (cur, txn), text)
-        text, c = re.subn(r'\b%s\s*\.\s*(put_current\w*)\(\s*' % cur, r'%s.\1(%s, ' % (cur, txn), text)
+        text, c = re.subn(r'\b%s\s*\.\s*(put_current\w*(?:::<[^()]*?>)?)\(\s*' % cur, r'%s.\1(%s, ' % (cur, txn), text)
         n += a + b + c
     return text, n
+
+
+R6B_DESC = ('R6b', 'for PAT in EXPR { .. } over a non-range iterator -> let mut iter__N = EXPR; while let Some(PAT) = iter__N.next() { .. } '
+            '(Rust\'s definition of `for`; integer ranges `a..b` are left to Verus)')
+
+
+def rule_r6b(text):
+    n = 0
+    out = text
+    while True:
+        m2 = rustlex.mask(out)
+        found = None
+        for m in re.finditer(r'\bfor\b', m2):
+            after = m2[m.end():m.end() + 2]
+            if after.lstrip().startswith('<'):
+                continue
+            try:
+                ob = rustlex.next_open_brace(m2, m.end())
+            except ValueError:
+                continue
+            header = out[m.end():ob]
+            mi = re.search(r'\sin\s', header)
+            if not mi:
+                continue
+            pat, expr = header[:mi.start()].strip(), header[mi.end():].strip()
+            if re.match(r'^[\w.()]*\s*\.\.', expr) or re.search(r'^\(?\s*\w+\s*\.\.', expr):
+                continue  # integer range
+            if expr.startswith('iter__'):
+                continue
+            found = (m.start(), ob, pat, expr)
+            break
+        if not found:
+            return out, n
+        start, ob, pat, expr = found
+        ls = out.rfind('\n', 0, start) + 1
+        indent = re.match(r'[ \t]*', out[ls:]).group(0)
+        new = 'let mut iter__%d = %s;\n%swhile let Some(%s) = iter__%d.next() ' % (n, expr, indent, pat, n)
+        out = out[:start] + new + out[ob:]
+        n += 1
 
 
 def apply_rules(text, skip=()):
@@ -112,6 +152,10 @@ def apply_rules(text, skip=()):
         text, n = rx.subn(rep, text)
         if n:
             fired[rid] = n
+    if 'R6b' not in skip:
+        text, n = rule_r6b(text)
+        if n:
+            fired['R6b'] = n
     if 'R9' not in skip:
         text, n = rule_r9(text)
         if n:
@@ -124,7 +168,7 @@ def apply_rules(text, skip=()):
 
 
 def rule_table():
-    return [(r[0], r[1]) for r in RULES] + [R9_DESC, (R6A[0], R6A[1])]
+    return [(r[0], r[1]) for r in RULES] + [R6B_DESC, R9_DESC, (R6A[0], R6A[1])]
 
 
 # ---------------------------------------------------------------------------------------------
@@ -135,6 +179,8 @@ class Block:
         self.attrs = []
         self.spec = []
         self.loops = {}
+        self.loopstart = {}
+        self.loopend = {}
         self.substs = []   # (old, new, count)
         self.hints = []    # (where, anchor, text)
         self.noglobal = []
@@ -183,11 +229,15 @@ def parse_template(path, units_dir):
                     b.noglobal += ln.split()[1:]; cur = None
                 elif ln.startswith('//@spec'):
                     cur = b.spec
+                elif ln.startswith('//@loopstart '):
+                    n = int(ln.split()[1]); cur = b.loopstart.setdefault(n, [])
+                elif ln.startswith('//@loopend '):
+                    n = int(ln.split()[1]); cur = b.loopend.setdefault(n, [])
                 elif ln.startswith('//@loop '):
                     n = int(ln.split()[1]); cur = b.loops.setdefault(n, [])
                 elif ln.startswith('//@subst'):
-                    m = re.search(r'count=(\d+)', ln)
-                    cnt = int(m.group(1)) if m else 1
+                    m = re.search(r'count=(\d+|any)', ln)
+                    cnt = (0 if m.group(1) == 'any' else int(m.group(1))) if m else 1
                     i += 1
                     if lines[i].strip() != '<<<':
                         raise ExtractError('%s: subst needs <<<' % path)
@@ -276,6 +326,12 @@ def extract_block(b: Block, snapshot: str):
     text, fired = apply_rules(raw, skip=b.noglobal)
     for old, new, cnt in b.substs:
         c = text.count(old)
+        if cnt == 0:
+            # count=any: a type-directed rewrite applied wherever the text occurs (possibly nowhere)
+            text = text.replace(old, new)
+            if c:
+                fired['subst'] = fired.get('subst', 0) + c
+            continue
         if c != cnt:
             if os.environ.get('VERIF_DEBUG'):
                 print('---- text after global rules ----\n' + text)
@@ -286,7 +342,10 @@ def extract_block(b: Block, snapshot: str):
     for where, anchor, lines in b.hints:
         c = text.count(anchor)
         if c != 1:
-            raise ExtractError('hint anchor in %s::%s occurs %d times: %r' % (b.file, b.fn, c, anchor[:80]))
+            # proof hints are optional: without its anchor the hint is dropped; if the function then fails the
+            # failure is reported as UNDECIDED (the proof script no longer applies), not as a violation
+            fired['hint_skipped'] = fired.get('hint_skipped', 0) + 1
+            continue
         p = text.find(anchor)
         ins = '\n'.join(lines) + '\n'
         if where == 'after':
@@ -303,13 +362,23 @@ def extract_block(b: Block, snapshot: str):
         raise ExtractError('fn keyword lost in %s' % b.fn)
     body_open = rustlex.next_open_brace(m2, mfn.start())
     loops = rustlex.find_loops(m2, body_open)
-    for n in sorted(b.loops, reverse=True):
+    inserts = []   # (position, text)
+    for n in set(b.loops) | set(b.loopstart) | set(b.loopend):
         if n >= len(loops):
             # the loop is gone: its invariant has nothing to attach to; the function's other obligations still decide
             fired['loop_invariant_skipped'] = fired.get('loop_invariant_skipped', 0) + 1
             continue
         _kw, _k, ob = loops[n]
-        text = text[:ob] + '\n' + '\n'.join(b.loops[n]) + '\n' + text[ob:]
+        cb = rustlex.match_close(m2, ob)
+        if n in b.loopend:
+            ls = text.rfind('\n', 0, cb) + 1
+            inserts.append((ls if not text[ls:cb].strip() else cb, '\n'.join(b.loopend[n]) + '\n'))
+        if n in b.loopstart:
+            inserts.append((ob + 1, '\n' + '\n'.join(b.loopstart[n]) + '\n'))
+        if n in b.loops:
+            inserts.append((ob, '\n' + '\n'.join(b.loops[n]) + '\n'))
+    for pos, t in sorted(inserts, key=lambda x: -x[0]):
+        text = text[:pos] + t + text[pos:]
     # signature + spec
     m2 = rustlex.mask(text)
     mfn = re.search(r'(?:pub(?:\([a-z]+\))?\s+)?(?:const\s+)?(?:unsafe\s+)?fn\s+%s\b' % re.escape(b.fn), m2)
@@ -352,9 +421,17 @@ def build_unit(template_path, units_dir, snapshot, canary=False):
     parts = parse_template(template_path, units_dir)
     out_lines = []
     metas = []
+    cur_impl = None
     for kind, p in parts:
         if kind == 'text':
-            out_lines.extend(p.rstrip('\n').split('\n'))
+            tl = p.rstrip('\n').split('\n')
+            out_lines.extend(tl)
+            for ln in tl:
+                m = re.match(r'^(?:pub\s+)?impl(?:<[^>]*>)?\s+(?:[\w:<>, ]+\s+for\s+)?([A-Za-z_]\w*)', ln)
+                if m:
+                    cur_impl = m.group(1)
+                elif re.match(r'^\}', ln):
+                    cur_impl = None
         else:
             try:
                 text, meta = extract_block(p, snapshot)
@@ -371,6 +448,7 @@ def build_unit(template_path, units_dir, snapshot, canary=False):
             tl = text.rstrip('\n').split('\n')
             out_lines.extend(tl)
             meta['gen_lines'] = [g0, g0 + len(tl) - 1]
+            meta['impl_ctx'] = cur_impl
             meta['line_map'] = {g0 + k: v for k, v in meta['line_map'].items()}
             metas.append(meta)
     return '\n'.join(out_lines) + '\n', metas
